@@ -2832,13 +2832,16 @@ class LinearOperator(object):
         if isinstance(row_index, int):
             if row_index < 0:  # slice(-1, 0) would be empty
                 row_index = row_index + self.size(-2)
-            row_index = slice(row_index, row_index + 1, None)
-            squeeze_row = True
+            # (when the matrix dimensions are absorbed into tensor indices, an integer acts as a tensor index too)
+            if not row_col_are_absorbed:
+                row_index = slice(row_index, row_index + 1, None)
+                squeeze_row = True
         if isinstance(col_index, int):
             if col_index < 0:
                 col_index = col_index + self.size(-1)
-            col_index = slice(col_index, col_index + 1, None)
-            squeeze_col = True
+            if not row_col_are_absorbed:
+                col_index = slice(col_index, col_index + 1, None)
+                squeeze_col = True
 
         # Call self._getitem - now that the index has been processed
         # Alternatively, if we're using tensor indices and losing dimensions, use self._get_indices
